@@ -21,6 +21,9 @@ type Exact struct {
 func (e Exact) IsZero() bool { return e.Num.Sign() == 0 }
 
 func (e Exact) String() string {
+	if e.Num == nil {
+		return "<none>"
+	}
 	s := ""
 	if e.Neg {
 		s = "-"
